@@ -349,11 +349,11 @@ var goodMetric, goodEvent []byte
 
 func setupHTTP() {
 	httpRec = &fx.Recorder{}
-	srv, err := web.NewHttpServer(fx.Quiet(), httpRec, "t", "127.0.0.1:0", false, false, true, false, nil, nil)
+	rt, err := fx.IngestionRouter(httpRec, "t")
 	if err != nil {
 		panic(err)
 	}
-	router = srv.Router
+	router = rt
 	goodMetric, _ = proto.Marshal(&pb.RawMessageV2{Counters: map[string]*pb.CounterTagV2{"c": {TagMap: map[string]*pb.RawCounterV2{"": {Value: 1}}}}})
 	goodEvent, _ = proto.Marshal(&pb.EventV2{Title: "t", Text: "x"})
 }
